@@ -874,6 +874,20 @@ func RunC19(ctx *core.Ctx) *core.Violation {
 				if !beSeekable(m.be) || cur.eof {
 					continue
 				}
+				if t.Chance(1, 3) {
+					// a request that must be rejected (io.ReaderAt has no negative offsets): no bytes,
+					// an error, and no effect on this reader or its clones afterwards
+					p := make([]byte, 1+t.Draw(4))
+					n, err := cur.r.ReadAt(p, -1-int64(t.Draw(5)))
+					ctx.L.Ev("ReadAtNegative", int64(n))
+					ctx.Count("probe_rejected_request")
+					if n != 0 || err == nil {
+						v = m.viol("readat-contract", "ReadAt at a negative offset returned n=%d err=%v", n, err)
+					} else {
+						v = m.checkState(cur, "rejected ReadAt")
+					}
+					break
+				}
 				v = m.doSeekOutside(cur, t.Draw(3), int64(t.Pick(0, 1, 7, 1<<40)))
 			case 7:
 				if !beSeekable(m.be) {
@@ -934,6 +948,13 @@ func (m *c19) runIOErr(r *parse.BinaryReader, err error, ops []wrOp, prefixLen i
 		}
 		return m.viol("open-failed", "constructor failed although it does no I/O on this backend: %v", err)
 	}
+	var sibling *parse.BinaryReader
+	if m.be == beSeeker || m.be == beReaderAt {
+		sibling = r.Clone() // shares the backend; must keep working after the other cursor failed
+	}
+	defer func() {
+		_ = sibling
+	}()
 	pos := int64(0)
 	for i := 0; i < 40; i++ {
 		kind := ctx.T.Draw(kI64 + 1)
@@ -952,6 +973,16 @@ func (m *c19) runIOErr(r *parse.BinaryReader, err error, ops []wrOp, prefixLen i
 			}
 			ctx.Count("probe_ioerr_read_crossed_failure")
 			break
+		}
+	}
+	if sibling != nil && F >= 2 && m.size >= 2 { // byte 0 then ends strictly before F: no error can come with it
+		// the failure of one cursor is not the failure of the backend: a sibling reading bytes
+		// that lie entirely before F still gets them
+		got := sibling.ReadUint8()
+		ctx.L.Ev("SiblingReadUint8", int64(got))
+		ctx.Count("probe_ioerr_sibling_read")
+		if got != m.data[0] || sibling.Err() != nil {
+			return m.viol("sibling-poisoned", "after another cursor failed at byte %d, a clone reading byte 0 got %#x (want %#x) with Err() = %v", F, got, m.data[0], sibling.Err())
 		}
 	}
 	// further calls must not panic
